@@ -65,7 +65,8 @@ def run_job(job):
 
         for qi in range(job["queries"]):
             keys = rng.sample(KEYS, rng.choice([1, 1, 1, 2]))
-            frm = rng.choice(["t", "t", "t", "t, u", "u, t", "t, u, t/.", "t maxdepth 2, u dfs", "u mindepth 2, t"])
+            frm = rng.choice(["t", "t", "t", "t, u", "u, t", "t, u, t/.", "t maxdepth 2, u dfs", "u mindepth 2, t", "t maxdepth 1", "u, t mindepth 2",
+                              "t, u maxdepth 1"])
             inner = rng.choice(INNERS)
             where = rng.choice(WHERES)
             wtxt = (" where " + where) if where else ""
@@ -102,7 +103,8 @@ def run_job(job):
                 spelled = cols[oi] if rng.random() < 0.7 else str(oi + 1)
                 order = " order by %s%s" % (spelled, " desc" if desc else "")
                 okey = (oi, desc)
-            q = "%s from %s%s group by %s%s into list" % (", ".join(cols), frm, wtxt, ", ".join(keys), order)
+            gb = rng.choice(["group by", "group by", "GROUP BY", "Group By", "group BY"])
+            q = "%s from %s%s %s %s%s into list" % (", ".join(cols), frm, wtxt, gb, ", ".join(keys), order)
             r = run(q)
             ctx = {"query": q, "row_query": q0, "groups": {repr(k): v[:20] for k, v in list(groups.items())[:12]}, "result": r.brief()}
             if r.verdict != "ok":
@@ -183,8 +185,16 @@ def run_job(job):
                             if len(cells) != len(fns):
                                 res.viol("`%s`: %d cells for %d aggregates" % (qr, len(cells), len(fns)), ctx)
                                 continue
+                            def differ(a, b):
+                                if a == b:
+                                    return False
+                                try:        # real-valued aggregates: the rows are added up in a different order
+                                    fa, fb = float(a), float(b)
+                                    return not (fa == fb or abs(fa - fb) <= 1e-9 * max(1.0, abs(fa), abs(fb)))
+                                except ValueError:
+                                    return True
                             diff = [(c, a, b) for c, a, b in zip(cols[len(keys):], row[len(keys):], cells)
-                                    if a != b and not (len(groups[tuple(kv)]) < 2 and c.split("(")[0] in ("var_samp", "stddev_samp", "var_pop", "stddev_pop"))]
+                                    if differ(a, b) and not (len(groups[tuple(kv)]) < 2 and c.split("(")[0] in ("var_samp", "stddev_samp", "var_pop", "stddev_pop"))]
                             if diff:
                                 res.viol("group %s shows %s = %r, the ungrouped query restricted to that key shows %r" % (kv, diff[0][0], diff[0][1], diff[0][2]), ctx)
                                 continue
@@ -216,7 +226,7 @@ def run_job(job):
 
 def main(chk):
     quick = chk.tier == "quick"
-    n = 240 if quick else 1200
+    n = 720 if quick else 2400
     jobs = [{"id": "j%d" % i, "seed": job_seed(chk.seed, "C08", i), "queries": 10 if quick else 20} for i in range(n)]
     chk.run_jobs(jobs, budget_s=300 if quick else 3000)
     return chk.finish(
@@ -227,5 +237,5 @@ def main(chk):
              "(keys, functions, where, order, groups).",
         assumptions=["group rows may come in any order unless ORDER BY is given", "numeric order keys compare as numbers, others by code point",
                      "sample statistics of single-row groups are don't-care"],
-        require={"from": 6, "keys": 10, "order_kinds": 6, "conservation_checked": 20, "restricted_compared": 20},
+        require={"from": 9, "keys": 10, "order_kinds": 6, "conservation_checked": 20, "restricted_compared": 20},
     )
